@@ -202,12 +202,21 @@ impl<'a> TryFrom<&'a [u8]> for Header<'a> {
     type Error = BinaryParseError;
 
     fn try_from(input: &'a [u8]) -> Result<Self, Self::Error> {
-        let length = match input.iter().position(|&c| CARRIAGE_RETURN == (c as char)) {
+        let position = input.iter().position(|&c| CARRIAGE_RETURN == (c as char));
+        let length = match position {
             Some(suffix) => min(suffix + PROTOCOL_SUFFIX.len(), input.len()),
             None if input.len() >= MAX_LENGTH => return Err(ParseError::HeaderTooLong.into()),
             None => input.len(),
         };
-        let header = from_utf8(&input[..length])?;
+        let header = match from_utf8(&input[..length]) {
+            Ok(header) => header,
+            // A multi-byte character cut short by the end of a line whose CR has not arrived yet may be
+            // completed by the next read: the verdict is that of the text before it.
+            Err(error) if position.is_none() && error.error_len().is_none() => {
+                from_utf8(&input[..error.valid_up_to()])?
+            }
+            Err(error) => return Err(error.into()),
+        };
 
         parse_header(header).map_err(BinaryParseError::Parse)
     }
